@@ -137,6 +137,23 @@ def check_un(case):
             if unit != nm or not (abs(got - float(w)) <= 1e-9 * max(1.0, abs(float(w))) + 5e-13):
                 dis.append({"clause": "Convert", "detail": "Length(%r).%s(%s) = %r, expected %s%s" % (s, meth, kw, r, float(w), nm),
                             "rel_err": relerr(got, w), "target": nm})
+    # the context-free helpers agree with the CSS ratios (px = 1, pt = 4/3, pc = 16, in = 1 inch)
+    amt = rat(x[0])
+    try:
+        L = svg.Length(s)
+        if x[1] in ("", "px", "pt", "pc"):
+            w = amt * {"": 1, "px": 1, "pt": Fraction(4, 3), "pc": 16}[x[1]]
+            g = L.in_pixels()
+            if not is_num(g) or not near(g, w):
+                dis.append({"clause": "Convert", "detail": "Length(%r).in_pixels() = %r, expected %r" % (s, g, float(w)), "target": "px"})
+        if x[1] == "in":
+            g = L.in_inches()
+            if not is_num(g) or not near(g, amt):
+                dis.append({"clause": "Convert", "detail": "Length(%r).in_inches() = %r, expected %r" % (s, g, float(amt)), "target": "in"})
+    except engine.CaseTimeout:
+        raise
+    except Exception as e:
+        dis.append({"clause": "ConvertRaises", "detail": "Length(%r).in_pixels()/in_inches() raised %s" % (s, type(e).__name__)})
     for d in dis:
         d["units"] = [x[1]] + ([ctx[1][1]] if ctx[1] else [])
         d["mm_cm_involved"] = any(u in ("mm", "cm") for u in d["units"]) or d.get("target") in ("mm", "cm")
